@@ -32,6 +32,7 @@ func runC20(c *Ctx) {
 	})
 	e.run()
 	c.floor("C20-R1", 20)
+	splitRMW(c, e, "C20-R1")
 
 	// R2: loop progress — every loop that calls an evicting helper has an emptiness exit
 	c.rule("C20-R2", "loop-progress: every loop in pkg/cache whose body (transitively) calls container/list.Remove through a helper that is a no-op on an empty list must have a loop exit controlled by a test of evictList.Len() against 0, of Back()/Front() against nil, or of a boolean result of the evicting helper; otherwise the loop spins forever under the lock once the list is empty (capacity 0, or one value larger than maxSize)")
